@@ -3,6 +3,10 @@
  *   mode "interleave": the two executions of each pair of lines are advanced alternately, one
  *                      operation of A, one of B, ... in a single thread
  *   mode "threads":    each pair is run on two threads concurrently
+ *   mode "nested":     A is advanced operation by operation; its check and extract operations carry a progress
+ *                      callback, and each invocation of that callback - i.e. from inside A's decoding loop, after a
+ *                      piece of A's member has been produced and before it is written - advances B by one operation;
+ *                      what is left of B runs when A is done
  * jobfile: pairs of lines in the format of reader_drv ("exec <gt> <archive> <stream> <policy> <xdir> 0 b <ops>");
  * only streams "path" and "cb", ops N, R<k>, A<k>, C, X (X extracts to explicit names below <xdir>).
  * Each reader's events go to its own trace (same vocabulary as reader_drv, flag b). */
@@ -18,11 +22,10 @@
 #include "lib/lhasa_verif.h"
 #include "lib/lha_file_header.h"
 
-typedef struct {
-	char gt[4096], arc[4096], skind[64], spol[64], xdir[4096]; char *ops; char *save; char *next;
+typedef struct Ctx_ { char gt[4096], arc[4096], skind[64], spol[64], xdir[4096]; char *ops; char *save; char *next;
 	uint8_t *data; size_t len, pos;
 	LHAInputStream *st; LHAReader *r; FILE *out; unsigned xn; int done;
-} Ctx;
+	struct Ctx_ *nest; } Ctx;
 
 static int cb_read(void *h, void *buf, size_t n) { Ctx *c = h; size_t k = c->len - c->pos < n ? c->len - c->pos : n; memcpy(buf, c->data + c->pos, k); c->pos += k; return (int) k; }
 static int cb_skip(void *h, size_t n) { Ctx *c = h; if (c->len - c->pos < n) { c->pos = c->len; return 0; } c->pos += n; return 1; }
@@ -76,6 +79,14 @@ static int start(Ctx *c, const char *line)
 	return 1;
 }
 
+static void step(Ctx *c);
+static void nest_cb(unsigned int block, unsigned int total, void *p)
+{
+	Ctx *c = p;
+	(void) block; (void) total;
+	if (c->nest && !c->nest->done) step(c->nest);
+}
+
 static void step(Ctx *c)
 {
 	char *op = c->next;
@@ -96,15 +107,22 @@ static void step(Ctx *c)
 		} while (op[0] == 'A' && n > 0);
 		free(buf); break; }
 	case 'C': {
-		int res = lha_reader_check(c->r, NULL, NULL);
+		int res = lha_reader_check(c->r, c->nest ? nest_cb : NULL, c);
 		fprintf(c->out, "{\"e\":\"Check\",\"res\":%s", res ? "true" : "false"); tail(c); break; }
 	case 'X': {
 		char fn[4300]; int res; struct stat sb;
 		int existed;
 		snprintf(fn, sizeof fn, "%s/x%u", c->xdir, c->xn++);
 		existed = lstat(fn, &sb) == 0;
-		res = lha_reader_extract(c->r, fn, NULL, NULL);
-		fprintf(c->out, "{\"e\":\"Extract\",\"res\":%s,\"existed\":%s,\"after\":%s", res ? "true" : "false", existed ? "true" : "false", lstat(fn, &sb) == 0 ? "true" : "false"); tail(c); break; }
+		res = lha_reader_extract(c->r, fn, c->nest ? nest_cb : NULL, c);
+		int after = lstat(fn, &sb) == 0;
+		fprintf(c->out, "{\"e\":\"Extract\",\"res\":%s,\"existed\":%s,\"after\":%s", res ? "true" : "false", existed ? "true" : "false", after ? "true" : "false");
+		/* what the operation wrote: the bytes of the regular file now at the output path */
+		if (after && S_ISREG(sb.st_mode) && sb.st_size <= 65536) {
+			FILE *of = fopen(fn, "rb"); int ch, first = 1;
+			if (of) { fprintf(c->out, ",\"file\":["); while ((ch = getc(of)) != EOF) { fprintf(c->out, "%s%d", first ? "" : ",", ch); first = 0; } fprintf(c->out, "]"); fclose(of); }
+		}
+		tail(c); break; }
 	}
 	c->next = strtok_r(NULL, ",", &c->save);
 	if (!c->next) c->done = 1;
@@ -124,7 +142,7 @@ int main(int argc, char **argv)
 {
 	static char la[1 << 20], lb[1 << 20];
 	if (argc < 5) return 2;
-	int threads = !strcmp(argv[1], "threads");
+	int threads = !strcmp(argv[1], "threads"), nested = !strcmp(argv[1], "nested");
 	FILE *jf = fopen(argv[2], "r"), *oa = fopen(argv[3], "w"), *ob = fopen(argv[4], "w");
 	if (!jf || !oa || !ob) return 2;
 	while (fgets(la, sizeof la, jf) && fgets(lb, sizeof lb, jf)) {
@@ -135,6 +153,10 @@ int main(int argc, char **argv)
 			pthread_t ta, tb;
 			pthread_create(&ta, NULL, thread_main, &a); pthread_create(&tb, NULL, thread_main, &b);
 			pthread_join(ta, NULL); pthread_join(tb, NULL);
+		} else if (nested) {
+			a.nest = &b;
+			while (!a.done) step(&a);
+			while (!b.done) step(&b);
 		} else {
 			while (!a.done || !b.done) { if (!a.done) step(&a); if (!b.done) step(&b); }
 		}
